@@ -5,7 +5,7 @@ own session so that the caller can kill the whole process group).  Nothing here 
 outcome is only observed and serialised; prediction and verdict come from the Lean driver.
 
 scenario = {"W": 2, "requests": [5, 2], "faults": ["game:0:2", ...], "T": 10.0, "slow": 0.0, "api": "play_many"}
-fault tokens are the driver's (TakVerif/Driver/Pool.lean): factory:j  game:j:k  killplay:j:k  killwait:j:r
+fault tokens are the driver's (TakVerif/Driver/Pool.lean): factory:j  game:j:k  killplay:j:k  killwait:j:r  killinit:j
 
 api = "play_many" (default): one `MultiprocessSelfPlayEngine`, consecutive `play_many(N)` calls; afterwards
       `stop()` — ALSO after a request has raised (what `play_many_games` / the trainer do in `finally`); the
@@ -42,7 +42,7 @@ def _read_markers(d):
 
 
 def spec_of(scenario, nonce):
-    spec = {"factory": [], "game": {}, "killplay": {}, "slow": scenario.get("slow", 0.0), "nonce": nonce}
+    spec = {"factory": [], "game": {}, "killplay": {}, "killinit": [], "slow": scenario.get("slow", 0.0), "nonce": nonce}
     for f in scenario["faults"]:
         t = f.split(":")
         if t[0] == "factory":
@@ -51,6 +51,8 @@ def spec_of(scenario, nonce):
             spec["game"][t[1]] = int(t[2])
         elif t[0] == "killplay":
             spec["killplay"][t[1]] = int(t[2])
+        elif t[0] == "killinit":
+            spec["killinit"].append(int(t[1]))
     return spec
 
 
@@ -84,7 +86,7 @@ class Monitor:
         except ProcessLookupError:
             pass
         t0 = time.time()
-        if self.procs is not None:
+        if self.procs is not None and j < len(self.procs):
             self.procs[j].join(10)
         else:
             while not _pid_gone(pid) and time.time() - t0 < 10:
@@ -125,7 +127,7 @@ class Monitor:
             if n.startswith("fault-game-") and (m["t"], "game") not in self.faults:
                 self.faults.append((m["t"], "game"))
         for j in range(self.W):  # a worker announced its kill window
-            m = markers.get("window-%d" % j)
+            m = markers.get("window-%d" % j) or markers.get("window-init-%d" % j)
             if m is not None and j not in self.killed:
                 time.sleep(0.2)
                 self.kill(j, m["pid"])
@@ -184,10 +186,38 @@ def run_play_many(scenario, d, factory, res):
     T = float(scenario.get("T", 10.0))
     cfg = self_play.SelfPlayConfig(engine_factory=factory, size=3, workers=W)
     t_engine = time.time()
-    engine = self_play.MultiprocessSelfPlayEngine(config=cfg)
+    # The engine is built in a watched thread: scripted start-up faults fire while it is being built,
+    # and building it is part of the first request's bounded time (a constructor that waits for the
+    # workers must not wait forever for one that died).
+    ebox = {}
+
+    def build():
+        try:
+            ebox["engine"] = self_play.MultiprocessSelfPlayEngine(config=cfg)
+        except BaseException as ex:  # noqa
+            ebox["exc"] = type(ex).__name__
+        ebox["t_end"] = time.time()
+
+    mon = Monitor(d, W, t_engine, None)
+    bth = threading.Thread(target=build, daemon=True)
+    bth.start()
+    blocked = mon.watch(bth, t_engine, T)
+    if blocked is not None or "exc" in ebox:
+        obs = {"N": scenario["requests"][0], "request": 1, "fault": mon.last_fault(), "faults_fired": sorted(k for _, k in mon.faults), "exitcodes": [], "at": "engine-construction"}
+        if blocked is not None:
+            obs.update(outcome="blocked", blocked_s=blocked)
+        else:
+            markers = mon.scan()
+            ts = mon.settled(markers) or t_engine
+            obs.update(outcome="raised", exc=ebox["exc"], ms=max(0, int((ebox["t_end"] - mon.t_ref(t_engine, ts)) * 1000)))
+        obs["seconds"] = round(time.time() - t_engine, 2)
+        res["requests"].append(obs)
+        res["stop"] = None
+        return
+    engine = ebox["engine"]
     procs = engine.processes
     res["_procs"] = procs
-    mon = Monitor(d, W, t_engine, procs)
+    mon.procs = procs
     seen_tags = set()
     prev_return = None
     t_call = t_engine
